@@ -176,7 +176,7 @@ func c07Gen(rng *rand.Rand, tier string, w *bufio.Writer) {
 	// 9: sub-second parts decide: records at 3s, 3s+1ns, 3s+999999999ns, 4s; windows on those instants
 	fmt.Fprintln(w, "case 9\nset k1 i64 1 3000000000 0 0\nset k2 i64 2 3000000001 0 0\nset k3 i64 3 3999999999 0 0\nset k4 i64 4 4000000000 0 0\nset k5 i64 5 3000000000 0 0\nq created asc 0 0 3000000001 4000000000 u\nq created desc 0 0 3000000000 3999999999 u\nq created asc 0 0 3000000000 3000000001 s\nq created desc 0 0 3999999999 - u\nq created asc 0 0 - 3000000001 u")
 	// 10: Increment moves an int64 value and the expiry inside built indexes; a reload drops them
-	fmt.Fprintln(w, "case 10p\nset k1 i64 1 1000000000 0 0\nset k2 i64 2 2000000000 0 3000000000\nq i64 asc 0 0 - - u\nq expire asc 0 0 - - u\ninc k1 3 5000000000\ninc k3 1 0\nq i64 asc 0 0 - - u\nq expire desc 0 0 - - u\nreload\nq i64 desc 0 0 - - u\nq created asc 0 0 - - u\nset k1 i64 0 9000000000 0 0\nq created asc 0 0 - - u\nq expire asc 0 0 - - u")
+	fmt.Fprintln(w, "case 10p\nset k1 i64 1 1000000000 0 0\nset k2 i64 2 2000000000 0 3000000000\nq i64 asc 0 0 - - u\nq expire asc 0 0 - - u\ninc k1 3 5000000000\ninc k3 1 0\nq i64 asc 0 0 - - u\nq expire desc 0 0 - - u\nreload\nq i64 desc 0 0 - - u\nq created asc 0 0 - - u\nset k1 i64 0 9000000000 0 0\nq created asc 0 0 - - u\nq expire asc 0 0 - - u\nshiftexp\nq key asc 0 0 - - u\nshiftexp")
 	for c := 11; c < cases; c++ {
 		persistent := c%3 == 0
 		if persistent {
@@ -253,6 +253,14 @@ func c07Gen(rng *rand.Rand, tier string, w *bufio.Writer) {
 				fmt.Fprintf(w, "inc %s %d %d\n", k, d, c07TS(rng, 60))
 			case r < 62 && persistent:
 				fmt.Fprintln(w, "reload")
+			case r < 64:
+				// ShiftExpiredTreasures: every timestamp of the run is in the past, so this returns the
+				// whole expiration index in order and deletes those records
+				fmt.Fprintln(w, "shiftexp")
+				for k := range live {
+					delete(live, k) // (the generator does not track which keys carry an expiry: be conservative)
+					delete(incSum, k)
+				}
 			default:
 				idx := focus[rng.Intn(len(focus))]
 				if rng.Intn(12) == 0 {
@@ -355,6 +363,19 @@ func c07Run(in *bufio.Scanner, w *bufio.Writer) {
 					return "nilnil"
 				}
 				return "ok" // a content type other than int64 is an error and changes nothing
+			case f[0] == "shiftexp" && len(f) == 1:
+				resp, err := rig.GW.ShiftExpiredTreasures(ctx, &hydrapb.ShiftExpiredTreasuresRequest{IslandID: 1, SwampName: swampName, HowMany: 0})
+				if err != nil {
+					return "err " + c07ErrClass(err)
+				}
+				if resp == nil {
+					return "nilnil"
+				}
+				var keys []string
+				for _, t := range resp.GetTreasures() {
+					keys = append(keys, t.GetKey())
+				}
+				return "r " + strings.Join(keys, ",")
 			case f[0] == "reload" && len(f) == 1:
 				nm := name.Load(swampName)
 				if ok, err := rig.Zeus.GetHydra().IsExistSwamp(1, nm); err != nil || !ok {
